@@ -297,6 +297,76 @@ def _sum_lazy(ex, node, f):
 lazy["builtins.sum"] = _sum_lazy
 
 
+_qcount = [0]
+
+
+def _quant_lazy(kind):
+    """all(e(x) for x in S) / any(e(x) for x in S) over a set or list, for a PURE element expression
+    (possibly containing further all/any): the result is a fresh Boolean r -- a fresh function of the
+    variables of the enclosing generators -- defined by elimination / introduction facts with a
+    witness function, exactly like the bounded-quantifier predicates of the specifications."""
+
+    def h(ex, node, f):
+        if len(node.args) != 1 or node.keywords or not isinstance(node.args[0], (ast.GeneratorExp, ast.ListComp)):
+            raise Unsupported(f"{kind}() of this shape")
+        g = node.args[0]
+        if len(g.generators) != 1 or g.generators[0].ifs or g.generators[0].is_async or not isinstance(g.generators[0].target, ast.Name):
+            raise Unsupported(f"{kind}() over a generator of this shape")
+        gen = g.generators[0]
+        src = ex.eval(gen.iter)
+        st = ex.st
+        _qcount[0] += 1
+        n = _qcount[0]
+        if isinstance(src, VSet):
+            es = src.et.sort()
+            member = lambda t: z3.IsMember(t, src.t)
+            et = src.et
+        elif isinstance(src, VList):
+            es = src.et.sort()
+            mem, _w = L.mem_theory(es)
+            member = lambda t: mem(src.t, t)
+            et = src.et
+        else:
+            raise Unsupported(f"{kind}() over {src.ty}")
+        x = z3.Const(f"_q{n}_{gen.target.id}", es)
+        qv = list(getattr(ex, "_qvars", []))
+        saved_env = dict(st.env)
+        pc_before, pos_before, consts_before = len(st.pc), ex.pos, len(st.fresh_consts)
+        ex._qvars = qv + [x]
+        try:
+            st.env[gen.target.id] = et.wrap(x)
+            bv = ex.truth(ex.eval(g.elt))
+        finally:
+            ex._qvars = qv
+            st.env = saved_env
+        if ex.pos != pos_before or len(st.fresh_consts) != consts_before or any(not isinstance(p, L.Forall) for p in st.pc[pc_before:]):
+            raise Unsupported(f"the element expression of {kind}() is not pure")
+        sorts = [v.sort() for v in qv]
+        if qv:
+            r = z3.Function(f"q{n}!{kind}", *sorts, L.Bool)(*qv)
+            w = z3.Function(f"q{n}!w", *sorts, es)(*qv)
+        else:
+            r = z3.Const(f"q{n}!{kind}", L.Bool)
+            w = z3.Const(f"q{n}!w", es)
+        bw = z3.substitute(bv, [(x, w)])
+        if kind == "all":
+            st.assume(L.Forall(qv + [x], [r, member(x)] if qv else [member(x)], z3.Implies(z3.And(r, member(x)), bv), f"q{n}.all.elim"))
+            intro = z3.Implies(z3.Not(r), z3.And(member(w), z3.Not(bw)))
+        else:
+            st.assume(L.Forall(qv + [x], [r, member(x)] if qv else [member(x)], z3.Implies(z3.And(member(x), bv), r), f"q{n}.any.intro"))
+            intro = z3.Implies(r, z3.And(member(w), bw))
+        st.assume(L.Forall(qv, [r], intro, f"q{n}.{kind}.witness") if qv else intro)
+        ex.trusted = getattr(ex, "trusted", set())
+        ex.trusted.add("TB-py")
+        return VBool(r)
+
+    return h
+
+
+lazy["builtins.all"] = _quant_lazy("all")
+lazy["builtins.any"] = _quant_lazy("any")
+
+
 def _sorted_lazy(ex, node, f):
     """sorted(xs, key=len) for a list of sets: some rearrangement of xs (same elements, same
     length) in which set sizes never decrease (TB-py)"""
